@@ -302,8 +302,8 @@ def check_countdown(ctx, F, A, X):
         if bname == "GetListResponse":
             glr = body.pay[bv][0]
             nv = glr.elems[glr_names.index("num_vals")].lin
-            ok = p["st"].prove_eq0(cd - nv - 2)
-            msgt = "a list response announcing n values must set the countdown to n + 2"
+            ok = p["st"].prove_eq0(cd - nv - 2) and not p["st"].ghost.get("unproved-asserts")
+            msgt = "a list response announcing n values must set the countdown to n + 2 (without an arithmetic step that can overflow: %r)" % (p["st"].ghost.get("unproved-asserts"),)
         else:
             ok = p["st"].const_of(cd) == 1
             msgt = "a non-list message must set the countdown to 1"
